@@ -63,3 +63,12 @@ pub assume_specification<T, U, F: FnOnce(T) -> U>[ Option::<T>::map_or ](o: Opti
         o is None ==> r == default,
         o is Some ==> f.ensures((o->Some_0,), r),
 ;
+
+/// Option::filter: Some(x) is kept only if the predicate answered true for it (what the predicate answers is whatever the
+/// closure's own, verified, postcondition says - an unannotated closure says nothing)
+pub assume_specification<T, P: FnOnce(&T) -> bool>[ Option::<T>::filter ](o: Option<T>, predicate: P) -> (r: Option<T>)
+    requires o is Some ==> predicate.requires((&o->Some_0,)),
+    ensures
+        o is None ==> r is None,
+        r is Some ==> o is Some && r->Some_0 == o->Some_0 && predicate.ensures((&o->Some_0,), true),
+;
